@@ -283,6 +283,13 @@ class SymK(KBase):
         for o in self.obligations[n:]:
             o.kind = "signature"
 
+    def signature_bool(self, clause, cond, props=None):
+        """boolean form of `signature` (characterisation of a recorded finding's behaviour)"""
+        n = len(self.obligations)
+        self.ensures(clause, cond, props=props)
+        for o in self.obligations[n:]:
+            o.kind = "signature"
+
     def unchanged(self, clause, arr, props=None):
         """whole array bit-identical to its initial content (frame)."""
         base = arr.buf
